@@ -10,6 +10,7 @@ import (
 	"go/printer"
 	"go/token"
 	"go/types"
+	"os"
 	"sort"
 	"strconv"
 	"strings"
@@ -306,7 +307,14 @@ func recheck(pkgs map[string]*packages.Package) error {
 		conf := types.Config{Importer: imp, GoVersion: p.Types.GoVersion()}
 		tp, err := conf.Check(path, p.Fset, p.Syntax, info)
 		if err != nil {
-			return fmt.Errorf("re-checking %s after canonical renaming: %v", path, err)
+			if dbg := os.Getenv("WIRECHECK_DEBUG_DIR"); dbg != "" {
+				for i, f := range p.Syntax {
+					var buf bytes.Buffer
+					printer.Fprint(&buf, token.NewFileSet(), f)
+					os.WriteFile(fmt.Sprintf("%s/recheck_%s_%d.go.txt", dbg, p.Types.Name(), i), buf.Bytes(), 0o644)
+				}
+			}
+			return fmt.Errorf("re-checking %s after a normalising pre-pass: %v", path, err)
 		}
 		checked[path] = tp
 		p.Types, p.TypesInfo = tp, info
@@ -582,14 +590,14 @@ func normaliseOnce(pkgs map[string]*packages.Package) int {
 				if !ok || info.Defs[lhs] == nil || useCount[info.Defs[lhs]] != 1 {
 					return true
 				}
-				cid, ok := is.Cond.(*ast.Ident)
-				if !ok || info.Uses[cid] != info.Defs[lhs] {
+				cid, wrap := condIdent(is.Cond)
+				if cid == nil || info.Uses[cid] != info.Defs[lhs] {
 					return true
 				}
 				if b, isB := info.Defs[lhs].Type().Underlying().(*types.Basic); !isB || b.Info()&types.IsBoolean == 0 {
 					return true
 				}
-				is.Init, is.Cond = nil, as.Rhs[0]
+				is.Init, is.Cond = nil, wrap(as.Rhs[0])
 				n++
 				return true
 			})
@@ -605,9 +613,9 @@ func normaliseOnce(pkgs map[string]*packages.Package) int {
 					if ok && as.Tok == token.DEFINE && len(as.Lhs) == 1 && len(as.Rhs) == 1 && i+1 < len(blk.List) {
 						if is, ok := blk.List[i+1].(*ast.IfStmt); ok && is.Init == nil {
 							if lhs, ok := as.Lhs[0].(*ast.Ident); ok {
-								if cid, ok := is.Cond.(*ast.Ident); ok && info.Defs[lhs] != nil && info.Uses[cid] == info.Defs[lhs] && useCount[info.Defs[lhs]] == 1 {
+								if cid, wrap := condIdent(is.Cond); cid != nil && info.Defs[lhs] != nil && info.Uses[cid] == info.Defs[lhs] && useCount[info.Defs[lhs]] == 1 {
 									if b, isB := info.Defs[lhs].Type().Underlying().(*types.Basic); isB && b.Info()&types.IsBoolean != 0 {
-										is.Cond = as.Rhs[0]
+										is.Cond = wrap(as.Rhs[0])
 										n++
 										continue // drop the definition
 									}
@@ -769,14 +777,10 @@ func normaliseOnce(pkgs map[string]*packages.Package) int {
 						}
 					}
 					for _, st := range el.List {
-						if as, ok := st.(*ast.AssignStmt); ok && as.Tok == token.DEFINE {
-							for _, l := range as.Lhs {
-								if id, ok := l.(*ast.Ident); ok && id.Name != "_" && (sc == nil || sc.Lookup(id.Name) != nil) {
-									clash = true
-								}
-							}
+						if as, ok := st.(*ast.AssignStmt); ok && as.Tok == token.DEFINE && defineClashes(as, sc, info, body) {
+							clash = true
 						}
-						if ds, ok := st.(*ast.DeclStmt); ok && declClashes(ds, sc) {
+						if ds, ok := st.(*ast.DeclStmt); ok && declClashes(ds, sc, body) {
 							clash = true
 						}
 					}
@@ -792,25 +796,52 @@ func normaliseOnce(pkgs map[string]*packages.Package) int {
 				}
 				return true
 			})
+			// (m) a plain continue as the last statement of a loop body does nothing
+			ast.Inspect(f, func(nd ast.Node) bool {
+				var body *ast.BlockStmt
+				switch l := nd.(type) {
+				case *ast.ForStmt:
+					body = l.Body
+				case *ast.RangeStmt:
+					body = l.Body
+				}
+				if body != nil && len(body.List) > 0 && isPlainContinue(body.List[len(body.List)-1]) {
+					body.List = body.List[:len(body.List)-1]
+					n++
+				}
+				return true
+			})
 			// (k) of two ways to write an early exit — `if c {A; leave}; B; leave` and `if !c {B; leave}; A; leave` —
-			// the one whose guarded arm is the smaller is the normal form
+			// the one whose guarded arm is the smaller is the normal form (at the end of a loop body the
+			// leaving statement may be the implicit continue)
 			astutil.Apply(f, nil, func(c *astutil.Cursor) bool {
 				body, ok := c.Node().(*ast.BlockStmt)
 				if !ok {
 					return true
 				}
-				for i := 0; i < len(body.List)-1; i++ {
+				isLoopBody := false
+				switch l := c.Parent().(type) {
+				case *ast.ForStmt:
+					isLoopBody = l.Body == body
+				case *ast.RangeStmt:
+					isLoopBody = l.Body == body
+				}
+				for i := 0; i < len(body.List); i++ {
 					is, ok := body.List[i].(*ast.IfStmt)
 					if !ok || is.Else != nil || !terminates(is.Body) {
 						continue
 					}
 					rest := body.List[i+1:]
-					if !stmtTerminates(rest[len(rest)-1]) {
-						continue
+					restLeaves := len(rest) > 0 && stmtTerminates(rest[len(rest)-1])
+					if !restLeaves && !(isLoopBody && isPlainContinue(is.Body.List[len(is.Body.List)-1])) {
+						continue // (the implicit continue counts only when the guarded arm continues too)
 					}
 					size := func(list []ast.Stmt) int {
 						k := 0
 						for _, st := range list {
+							if isLoopBody && isPlainContinue(st) {
+								continue
+							}
 							ast.Inspect(st, func(ast.Node) bool { k++; return true })
 						}
 						return k
@@ -819,6 +850,7 @@ func normaliseOnce(pkgs map[string]*packages.Package) int {
 						continue
 					}
 					bad := false
+					needInit := false // the guarded arm uses what the init declares: the init has to move in front
 					for _, st := range rest {
 						if _, ok := st.(*ast.LabeledStmt); ok {
 							bad = true
@@ -834,7 +866,7 @@ func normaliseOnce(pkgs map[string]*packages.Package) int {
 						})
 						ast.Inspect(is.Body, func(m ast.Node) bool {
 							if id, ok := m.(*ast.Ident); ok && own[info.Uses[id]] {
-								bad = true
+								needInit = true
 							}
 							return true
 						})
@@ -848,14 +880,16 @@ func normaliseOnce(pkgs map[string]*packages.Package) int {
 						}
 					}
 					for _, st := range is.Body.List {
-						if as, ok := st.(*ast.AssignStmt); ok && as.Tok == token.DEFINE {
-							for _, l := range as.Lhs {
-								if id, ok := l.(*ast.Ident); ok && id.Name != "_" && (sc == nil || sc.Lookup(id.Name) != nil) {
-									bad = true
-								}
-							}
+						if as, ok := st.(*ast.AssignStmt); ok && as.Tok == token.DEFINE && defineClashes(as, sc, info, body) {
+							bad = true
 						}
-						if ds, ok := st.(*ast.DeclStmt); ok && declClashes(ds, sc) {
+						if ds, ok := st.(*ast.DeclStmt); ok && declClashes(ds, sc, body) {
+							bad = true
+						}
+					}
+					if needInit {
+						as, isDef := is.Init.(*ast.AssignStmt)
+						if !isDef || as.Tok != token.DEFINE || defineClashes(as, sc, info, body) {
 							bad = true
 						}
 					}
@@ -863,8 +897,22 @@ func normaliseOnce(pkgs map[string]*packages.Package) int {
 						continue
 					}
 					a := is.Body.List
+					if needInit {
+						pre := append([]ast.Stmt{}, body.List[:i]...)
+						pre = append(pre, is.Init)
+						is.Init = nil
+						body.List = append(pre, body.List[i:]...)
+						i++
+					}
+					if isLoopBody && isPlainContinue(a[len(a)-1]) {
+						a = a[:len(a)-1]
+					}
+					guarded := append([]ast.Stmt{}, rest...)
+					if !restLeaves {
+						guarded = append(guarded, &ast.BranchStmt{TokPos: is.Body.Rbrace, Tok: token.CONTINUE})
+					}
 					is.Cond = neg(is.Cond)
-					is.Body = &ast.BlockStmt{Lbrace: is.Body.Lbrace, List: append([]ast.Stmt{}, rest...), Rbrace: is.Body.Rbrace}
+					is.Body = &ast.BlockStmt{Lbrace: is.Body.Lbrace, List: guarded, Rbrace: is.Body.Rbrace}
 					body.List = append(body.List[:i+1:i+1], a...)
 					n++
 					break
@@ -874,7 +922,7 @@ func normaliseOnce(pkgs map[string]*packages.Package) int {
 			// (g) `if a { if b {X} }` is `if a && b {X}`
 			astutil.Apply(f, nil, func(c *astutil.Cursor) bool {
 				is, ok := c.Node().(*ast.IfStmt)
-				if !ok || is.Else != nil || is.Init != nil || len(is.Body.List) != 1 {
+				if !ok || is.Else != nil || len(is.Body.List) != 1 {
 					return true
 				}
 				in, ok := is.Body.List[0].(*ast.IfStmt)
@@ -960,8 +1008,24 @@ func normaliseOnce(pkgs map[string]*packages.Package) int {
 						break
 					}
 					is, ok := body.List[len(body.List)-2].(*ast.IfStmt)
-					if !ok || is.Init != nil || is.Else != nil || len(is.Body.List) != 1 {
+					if !ok || is.Else != nil || len(is.Body.List) != 1 {
 						break
+					}
+					if is.Init != nil {
+						// the init moves in front when what it declares is new to the block
+						as, isDef := is.Init.(*ast.AssignStmt)
+						sc := info.Scopes[body]
+						if sc == nil {
+							if ft, ok := c.Parent().(*ast.FuncDecl); ok {
+								sc = info.Scopes[ft.Type]
+							}
+						}
+						if !isDef || as.Tok != token.DEFINE || sc == nil {
+							break
+						}
+						if defineClashes(as, sc, info, body) {
+							break
+						}
 					}
 					irt, ok := is.Body.List[0].(*ast.ReturnStmt)
 					if !ok || len(irt.Results) != 1 {
@@ -1001,7 +1065,11 @@ func normaliseOnce(pkgs map[string]*packages.Package) int {
 						break
 					}
 					rt.Results[0] = e
-					body.List = append(body.List[:len(body.List)-2], rt)
+					if is.Init != nil {
+						body.List = append(body.List[:len(body.List)-2], is.Init, rt)
+					} else {
+						body.List = append(body.List[:len(body.List)-2], rt)
+					}
 					n++
 				}
 				return true
@@ -1024,6 +1092,19 @@ func normaliseOnce(pkgs map[string]*packages.Package) int {
 					return true
 				}
 				as, ok := rs.Body.List[0].(*ast.AssignStmt)
+				var holder *ast.IfStmt // `for i := range xs { if x := xs[i]; … {…}; … }`: the element is taken in the init of the first statement
+				if !ok {
+					if is, isIf := rs.Body.List[0].(*ast.IfStmt); isIf && is.Init != nil {
+						if as, ok = is.Init.(*ast.AssignStmt); ok {
+							holder = is
+							if len(as.Lhs) == 1 {
+								if id, isId := as.Lhs[0].(*ast.Ident); isId && declaredIn(rs.Body)[id.Name] {
+									ok = false // the name means something else later in the body
+								}
+							}
+						}
+					}
+				}
 				if !ok || as.Tok != token.DEFINE || len(as.Lhs) != 1 || len(as.Rhs) != 1 {
 					return true
 				}
@@ -1060,7 +1141,11 @@ func normaliseOnce(pkgs map[string]*packages.Package) int {
 					return true
 				}
 				rs.Value = vid
-				rs.Body.List = rs.Body.List[1:]
+				if holder != nil {
+					holder.Init = nil
+				} else {
+					rs.Body.List = rs.Body.List[1:]
+				}
 				if useCount[info.Defs[kid]] == 1 {
 					kid.Name = "_"
 				}
@@ -1112,21 +1197,22 @@ func exprText(e ast.Expr) string {
 }
 
 // declClashes: a declaration statement moved into the scope would redeclare one of its names.
-func declClashes(ds *ast.DeclStmt, sc *types.Scope) bool {
+func declClashes(ds *ast.DeclStmt, sc *types.Scope, body *ast.BlockStmt) bool {
 	gd, ok := ds.Decl.(*ast.GenDecl)
 	if !ok || sc == nil {
 		return true
 	}
+	now := declaredIn(body)
 	for _, sp := range gd.Specs {
 		switch x := sp.(type) {
 		case *ast.ValueSpec:
 			for _, nm := range x.Names {
-				if nm.Name != "_" && sc.Lookup(nm.Name) != nil {
+				if nm.Name != "_" && (sc.Lookup(nm.Name) != nil || now[nm.Name]) {
 					return true
 				}
 			}
 		case *ast.TypeSpec:
-			if sc.Lookup(x.Name.Name) != nil {
+			if sc.Lookup(x.Name.Name) != nil || now[x.Name.Name] {
 				return true
 			}
 		default:
@@ -1134,4 +1220,114 @@ func declClashes(ds *ast.DeclStmt, sc *types.Scope) bool {
 		}
 	}
 	return false
+}
+
+func isPlainContinue(st ast.Stmt) bool {
+	b, ok := st.(*ast.BranchStmt)
+	return ok && b.Tok == token.CONTINUE && b.Label == nil
+}
+
+// defineClashes: moved into the scope, the short variable declaration would not
+// compile or would mean something else. A name the scope already has is fine
+// when the declaration still introduces another name and the existing
+// variable has the same type (the declaration then assigns to it, as the
+// same statement written there would).
+func defineClashes(as *ast.AssignStmt, sc *types.Scope, info *types.Info, body *ast.BlockStmt) bool {
+	if sc == nil {
+		return true
+	}
+	now := declaredIn(body)
+	fresh := 0
+	for _, l := range as.Lhs {
+		id, ok := l.(*ast.Ident)
+		if !ok {
+			return true
+		}
+		if id.Name == "_" {
+			continue
+		}
+		old := sc.Lookup(id.Name)
+		if old == nil && now[id.Name] {
+			return true // declared by a statement that an earlier rewrite of this pass moved here: not in the recorded scope yet
+		}
+		if old == nil {
+			fresh++
+			continue
+		}
+		def := info.Defs[id]
+		if def == nil {
+			// already an assignment to an outer variable: it must be this one
+			if info.Uses[id] != old {
+				return true
+			}
+			continue
+		}
+		if _, isVar := old.(*types.Var); !isVar || !types.Identical(def.Type(), old.Type()) {
+			return true
+		}
+	}
+	return fresh == 0
+}
+
+// declaredIn: the names the block's own statements declare as the tree stands
+// now (the recorded scopes describe the tree before this pass's rewrites).
+func declaredIn(body *ast.BlockStmt) map[string]bool {
+	out := map[string]bool{}
+	if body == nil {
+		return out
+	}
+	for _, st := range body.List {
+		switch x := st.(type) {
+		case *ast.AssignStmt:
+			if x.Tok == token.DEFINE {
+				for _, l := range x.Lhs {
+					if id, ok := l.(*ast.Ident); ok {
+						out[id.Name] = true
+					}
+				}
+			}
+		case *ast.DeclStmt:
+			if gd, ok := x.Decl.(*ast.GenDecl); ok {
+				for _, sp := range gd.Specs {
+					switch y := sp.(type) {
+					case *ast.ValueSpec:
+						for _, nm := range y.Names {
+							out[nm.Name] = true
+						}
+					case *ast.TypeSpec:
+						out[y.Name.Name] = true
+					}
+				}
+			}
+		}
+	}
+	return out
+}
+
+// condIdent: the condition is an identifier, possibly under negations; wrap
+// rebuilds the same negations around a replacement.
+func condIdent(e ast.Expr) (*ast.Ident, func(ast.Expr) ast.Expr) {
+	nots := 0
+	for {
+		if p, ok := e.(*ast.ParenExpr); ok {
+			e = p.X
+			continue
+		}
+		if u, ok := e.(*ast.UnaryExpr); ok && u.Op == token.NOT {
+			nots++
+			e = u.X
+			continue
+		}
+		break
+	}
+	id, ok := e.(*ast.Ident)
+	if !ok {
+		return nil, nil
+	}
+	return id, func(r ast.Expr) ast.Expr {
+		for i := 0; i < nots; i++ {
+			r = &ast.UnaryExpr{OpPos: r.Pos(), Op: token.NOT, X: r}
+		}
+		return r
+	}
 }
